@@ -1434,6 +1434,7 @@ func c19ThirdHunt(ctx *Ctx, r *Report, o *omapInfo, fd *ast.FuncDecl, obj *types
 		// receiver): go-cmp does not find the pointer-receiver Equal on a Map held by value and would compare the
 		// fields `records` / `order`, telling nil from empty
 		byContent := false
+		filtered, structsOnly := false, false
 		for _, opt := range c.Args[2:] {
 			id, ok := ast.Unparen(opt).(*ast.Ident)
 			if !ok {
@@ -1451,7 +1452,24 @@ func c19ThirdHunt(ctx *Ctx, r *Report, o *omapInfo, fd *ast.FuncDecl, obj *types
 						return true
 					}
 					call, ok := ast.Unparen(vs.Values[0]).(*ast.CallExpr)
-					if !ok || len(call.Args) != 1 {
+					if !ok {
+						return true
+					}
+					// cmp.FilterPath(<filter>, cmp.Comparer(…)): the comparer restricted to some paths
+					if cf := callee(info, call); cf != nil && cf.Name() == "FilterPath" && len(call.Args) == 2 {
+						if inner, ok := ast.Unparen(call.Args[1]).(*ast.CallExpr); ok {
+							filtered = true
+							// the filter keeps struct values: a pointer to a map satisfies the interface too
+							ast.Inspect(call.Args[0], func(z ast.Node) bool {
+								if be, ok := z.(*ast.BinaryExpr); ok && be.Op == token.EQL && strings.Contains(exprString(be), "reflect.Struct") {
+									structsOnly = true
+								}
+								return true
+							})
+							call = inner
+						}
+					}
+					if len(call.Args) != 1 {
 						return true
 					}
 					if cf := callee(info, call); cf == nil || cf.Name() != "Comparer" {
@@ -1487,6 +1505,12 @@ func c19ThirdHunt(ctx *Ctx, r *Report, o *omapInfo, fd *ast.FuncDecl, obj *types
 					return true
 				})
 			}
+		}
+		// a pointer to a Map has every method of the Map value: unless it is restricted to struct values, the comparer is
+		// handed the pointers as well — the assertion to a Map value fails (never equal), a nil pointer panics
+		if byContent {
+			r.Check(filtered && structsOnly, "omap/equal-pointers-to-maps-use-equal", name+" compares values that can hold pointers to maps", c.Pos(), "the comparer of maps held by value is restricted to struct values (cmp.FilterPath)",
+				name+" hands pointers to maps to the comparer written for maps held by value (a *Map satisfies its interface too): Map[string, *Map[string,int]] holding {\"x\":{\"a\":1}} is not Equal to itself, Map[string, ast.Schema] neither (Schema.Objects is a *Map), and a nil pointer panics with `value method … called using nil *Map pointer`")
 		}
 		r.Check(byContent, "omap/equal-follows-maps-held-by-value", name+" compares values that can hold maps", c.Pos(), "a Comparer over an interface the Map value implements sends maps held by value to Equal",
 			name+" leaves maps held by value to go-cmp, which does not see the pointer-receiver Equal and compares `records` and `order` field by field: {x: *New()} and {x: a map emptied by Remove} both encode as {\"x\":{}} and are not Equal — nor is a map equal to its own JSON round trip")
